@@ -588,6 +588,14 @@ class PTN(SHarness):
 HARNESSES = [register(h()) for h in (GOP, OP, Pebbling, Stone, CPLS, Pitfall, RamseyNumber, VdW, PTN)]
 
 
+def replay(case):
+    if case['harness'].endswith('.t'):
+        from .. import tkernels
+        return tkernels.replay_case(case)
+    from ..sengine import replay as sreplay
+    return sreplay(case)
+
+
 def run(tier):
     run = Run('C03', tier)
     run.explanation = (
@@ -617,4 +625,9 @@ def run(tier):
         if part.counts.get('selftest_mutants', 0) and not part.counts.get('selftest_distinguished', 0):
             part.errors.append('%s: oracle self-test distinguished none of the mutants' % h.name)
         run.add(part, {'harness': h.name, 'points': len(items)})
+    from ..core import Part
+    from .. import tkernels
+    pt = Part()
+    tkernels.run_all(pt, tier, ('vdw',), 'c03.t')
+    run.add(pt, {'harness': 'c03.t', 'engine': 'T: loop bounds of _vdw_ap_generator <=> definition of a progression, for all N and symbolic k>=2'})
     return run.finish()
